@@ -20,7 +20,7 @@ import sys
 
 from vlib.core import MachineryError
 
-FAMILIES = ["mj_basic", "mj_restricted", "mj_qerr", "ml", "sj_shape", "sj_trust", "inv", "inv_same", "inv3"]
+FAMILIES = ["mj_basic", "mj_restricted", "mj_qerr", "ml", "sj_shape", "sj_trust", "inv", "inv_same", "inv3", "sj_keys", "inv_keys"]
 
 
 def _runs(path):
